@@ -7,6 +7,7 @@ import (
 	"flag"
 	"fmt"
 	"io"
+	"log"
 	"math/rand"
 	"net"
 	"os"
@@ -62,8 +63,79 @@ func patternPayload(id, n int) []byte {
 	return b
 }
 
+// lockedBuf collects the library's debug log (AGWPE_DEBUG) and the driver's own APP lines in one total order.
+type lockedBuf struct {
+	mu sync.Mutex
+	b  bytes.Buffer
+}
+
+func (l *lockedBuf) Write(p []byte) (int, error) {
+	l.mu.Lock()
+	defer l.mu.Unlock()
+	return l.b.Write(p)
+}
+func (l *lockedBuf) String() string { l.mu.Lock(); defer l.mu.Unlock(); return l.b.String() }
+
+// mechLog turns the captured log into the events AgwpeTrace.tla consumes: Recv i (the TNC read loop read the i-th data
+// frame of the connection), Drop (a demux input channel was full), RCall / RRet i (the application's Read call and the
+// frame it returned, 0 = none).
+func mechLog(text string, sc scen, payloads [][]byte) []map[string]interface{} {
+	var evs []map[string]interface{}
+	on := false
+	nRecv, last := 0, 0
+	want := fmt.Sprintf("<- Port: %d. Kind: D. From: %s. To: %s,", sc.Port, sc.Target, sc.MyCall)
+	for _, line := range strings.Split(text, "\n") {
+		switch {
+		case strings.HasPrefix(line, "MARK start"):
+			on = true
+		case strings.HasPrefix(line, "MARK end"):
+			on = false
+		case !on:
+		case strings.HasPrefix(line, want):
+			nRecv++
+			evs = append(evs, map[string]interface{}{"op": "Recv", "i": nRecv})
+		case strings.HasPrefix(line, "port buffer full - dropping frame"):
+			evs = append(evs, map[string]interface{}{"op": "Drop"})
+		case strings.HasPrefix(line, "APP call"):
+			evs = append(evs, map[string]interface{}{"op": "RCall"})
+		case strings.HasPrefix(line, "APP ret "):
+			var n int
+			var hx string
+			fmt.Sscanf(line, "APP ret %d %s", &n, &hx)
+			idx := 0
+			if n > 0 {
+				idx = -1 // bytes that are no frame of this connection
+				for i := last; i < len(payloads); i++ {
+					if hx == fmt.Sprintf("%x", payloads[i]) {
+						idx = i + 1
+						last = i + 1
+						break
+					}
+				}
+			}
+			evs = append(evs, map[string]interface{}{"op": "RRet", "i": idx, "n": n})
+		}
+	}
+	return evs
+}
+
 func runScenario(sc scen, rng *rand.Rand) []rec.Event {
 	res := &result{}
+	// mechanism log: inbound schedules without foreign frames whose reads return whole frames
+	mech := sc.Kind == "inbound" && !sc.Foreign
+	for _, n := range sc.Frames {
+		if n > sc.ReadBuf || n == 0 {
+			mech = false
+		}
+	}
+	var lb *lockedBuf
+	var mechPayloads [][]byte
+	if mech {
+		lb = &lockedBuf{}
+		os.Setenv("AGWPE_DEBUG", "1")
+		log.SetFlags(0)
+		log.SetOutput(lb)
+	}
 	sim, err := NewSim()
 	if err != nil {
 		return []rec.Event{{"op": "Infra", "err": err.Error()}}
@@ -194,6 +266,14 @@ func runScenario(sc scen, rng *rand.Rand) []rec.Event {
 		for _, p := range pieces {
 			stream = append(stream, p...)
 		}
+		var payloads [][]byte
+		for i, n := range sc.Frames {
+			payloads = append(payloads, patternPayload(100+i, n))
+		}
+		if mech {
+			log.Print("MARK start")
+			mechPayloads = payloads
+		}
 		var got []byte
 		var mu sync.Mutex
 		readDone := make(chan struct{})
@@ -205,7 +285,13 @@ func runScenario(sc scen, rng *rand.Rand) []rec.Event {
 				buf := make([]byte, sc.ReadBuf)
 				for {
 					conn.SetReadDeadline(time.Now().Add(1200 * time.Millisecond))
+					if mech {
+						log.Print("APP call")
+					}
 					n, err := conn.Read(buf)
+					if mech {
+						log.Printf("APP ret %d %x", n, buf[:n])
+					}
 					mu.Lock()
 					got = append(got, buf[:n]...)
 					l := len(got)
@@ -248,6 +334,9 @@ func runScenario(sc scen, rng *rand.Rand) []rec.Event {
 		for time.Now().Before(deadline) && gotLen() < len(want) {
 			time.Sleep(20 * time.Millisecond)
 		}
+		if mech {
+			log.Print("MARK end")
+		}
 		guard(func() { conn.Close() })
 		closed = true
 		select {
@@ -273,6 +362,9 @@ func runScenario(sc scen, rng *rand.Rand) []rec.Event {
 		}
 	}
 	time.Sleep(30 * time.Millisecond)
+	if mech && mechPayloads != nil {
+		res.add(rec.Event{"op": "Mech", "frames": len(sc.Frames), "log": mechLog(lb.String(), sc, mechPayloads)})
+	}
 	res.tnc(sim, sc, written, true)
 	return res.evs
 }
@@ -494,8 +586,21 @@ func Main(args []string) int {
 	mk(func(s *scen) { s.Kind = "inbound"; s.Port = 2; s.Frames = []int{33, 44}; s.Segs = []int{13} })
 	mk(func(s *scen) { s.Kind = "inbound"; s.Frames = []int{8, 8, 8, 8, 8, 8}; s.Pace = "gap" })
 	// a slow reader: three frames, 60 ms apart, wait in the demux pipeline until the application reads
-	mk(func(s *scen) { s.Kind = "inbound"; s.Frames = []int{12, 8, 4}; s.Pace = "gap"; s.GapMs = 60; s.ReadWait = 500 })
-	mk(func(s *scen) { s.Kind = "inbound"; s.Frames = []int{30, 30, 30}; s.Pace = "gap"; s.GapMs = 60; s.ReadWait = 500; s.ReadBuf = 7 })
+	mk(func(s *scen) {
+		s.Kind = "inbound"
+		s.Frames = []int{12, 8, 4}
+		s.Pace = "gap"
+		s.GapMs = 60
+		s.ReadWait = 500
+	})
+	mk(func(s *scen) {
+		s.Kind = "inbound"
+		s.Frames = []int{30, 30, 30}
+		s.Pace = "gap"
+		s.GapMs = 60
+		s.ReadWait = 500
+		s.ReadBuf = 7
+	})
 	mk(func(s *scen) { s.Kind = "inbound"; s.Target = "LA2BBB"; s.Frames = []int{10, 20, 30}; s.Foreign = true })
 	// accept path
 	mk(func(s *scen) { s.Kind = "accept"; s.Frames = []int{12, 120} })
@@ -503,6 +608,7 @@ func Main(args []string) int {
 	mk(func(s *scen) { s.Kind = "accept"; s.Port = 1; s.Frames = []int{77} })
 	// bursts with an idle reader: inside and far outside the pipeline's capacity
 	mk(func(s *scen) { s.Kind = "inbound"; s.Frames = repeat(16, 3); s.Pace = "burst"; s.ReadWait = 300 })
+	mk(func(s *scen) { s.Kind = "inbound"; s.Frames = repeat(16, 10); s.Pace = "burst"; s.ReadWait = 300 })
 	mk(func(s *scen) { s.Kind = "inbound"; s.Frames = repeat(16, 40); s.Pace = "burst"; s.ReadWait = 400 })
 	// seeded schedules
 	for i := 0; i < *n; i++ {
